@@ -16,7 +16,7 @@ from ..core import AnalysisError, Run, loc_of
 
 SHEETS = [
     ('S0', [[1, 2, 3, 'x', None], [4, 5, 6, 'y', None], [7.5, -2, 0, 'Abc', None]]),
-    ('S1', [[10, 20], [30, 40]]),
+    ('S1', [[10, 20, '=A1/0'], [30, 40]]),
 ]
 FORMULA_AT = (0, 6, 0)            # G1 of the first sheet holds the probe formula
 
@@ -30,10 +30,12 @@ PROBES = [
     ('=AVERAGE(A1:C1)', 2.0, 'C11'), ('=MIN(A1:C3)', -2, 'C11'), ('=MAX(A1:C3)', 7.5, 'C11'), ('=COUNT(A1:D2)', 6, 'C11'),
     ('=COUNTBLANK(A1:E1)', 1, 'C11'), ('=AND(TRUE;FALSE)', False, 'C11'), ('=OR(A1>5;B1>1)', True, 'C11'), ('=SUM(A1:D1)', 6, 'C11'),
     ('=IF(A1>0;"yes";"no")', 'yes', 'C13'), ('=IF(A1>5;1;2)', 2, 'C13'), ('=IF(C3=0;0;A1/C3)', 0, 'C13'), ('=IF(C3<>0;A1/C3;-1)', -1, 'C13'),
-    ('=IFERROR(A1/C3;"err")', 'err', 'C13'), ('=IFERROR(A1/B1;"err")', 0.5, 'C13'), ('=IFS(A1>5;1;A1>0;2)', 2, 'C13'), ('=1+IF(A1>0;10;20)', 11, 'C13'),
+    ('=IFERROR("r"&S1!C1;"fb")', 'fb', 'C13'), ('=IFERROR(S1!C1*2;"fb")', 'fb', 'C13'), ('=IFERROR(A1/C3;"err")', 'err', 'C13'), ('=IFERROR(A1/B1;"err")', 0.5, 'C13'), ('=IFS(A1>5;1;A1>0;2)', 2, 'C13'), ('=1+IF(A1>0;10;20)', 11, 'C13'),
+    ('=SUMIFS(A1:A3;A1:A3;">0";B1:B3;"<10";C1:C3;">0")', 5, 'C12'), ('=COUNTIFS(A1:A3;">0";B1:B3;"<10";C1:C3;"<7";D1:D3;"y")', 1, 'C12'),
     ('=SUMIF(A1:A3;">2")', 11.5, 'C12'), ('=SUMIF(A1:A3;">2";B1:B3)', 3, 'C12'), ('=SUMIFS(C1:C3;A1:A3;">2")', 6, 'C12'),
     ('=COUNTIFS(A1:A3;">2")', 2, 'C12'), ('=AVERAGEIFS(B1:B3;A1:A3;">2")', 1.5, 'C12'), ('=SUMIF(A1:A3;">2";S1!A1:A3)', 30, 'C12'),
     ('=COUNTIFS(D1:D3;"x")', 1, 'C12'), ('=SUMIFS(A1:A3;D1:D3;"y")', 4, 'C12'),
+    ('=AVERAGEIFS(A1:A3;A1:A3;">0";B1:B3;"<10";C1:C3;">0")', 2.5, 'C12'), ('=SUMIF(A1:A3;">2";B1:B2)', 3, 'C12'), ('=SUMIF(A1:A3;">0";B1)', 5, 'C12'),
     ('=VLOOKUP(4;A1:C3;2;FALSE)', 5, 'C14'), ('=MATCH(4;A1:A3;0)', 2, 'C14'), ('=INDEX(A1:C3;2;3)', 6, 'C14'), ('=VLOOKUP(4;A1:C3;3;FALSE)', 6, 'C14'),
     ('=MATCH(5;A1:A3;1)', 2, 'C14'), ('=INDEX(A1:C3;1;1)', 1, 'C14'),
     ('=LEFT("abcdef";2)', 'ab', 'C17'), ('=RIGHT("abcdef";2)', 'ef', 'C17'), ('=MID("abcdef";2;3)', 'bcd', 'C17'), ('=SEARCH("c";"abcdef")', 3, 'C17'),
@@ -45,6 +47,37 @@ PROBES = [
     ('=S1!A1+1', 11, 'C02'), ('=SUM(S1!A1:B2)', 100, 'C02'), ("='S1'!B2", 40, 'C02'), ('=S1!B1-S1!A1', 10, 'C02'), ('=SUM(S1!A:A)', 40, 'C02'),
     ('=$A$1+$B1+C$1', 6, 'C02'), ('=SUM(A1:A1)', 1, 'C02'), ('=SUM(B:C)', 14, 'C02'),
 ]
+
+
+# formulas the library must reject with an exception of its own (never a foreign one, never a value)
+REJECT_PROBES = ['=SUM(B:C5)', '=SUM(B:B5)', "=SUM('S1'!B:C2)", '=SUM(A1:B2:C3)', '=A1+', '=SUM(1;2', '=NOSUCH(1)', '=1 2', '=IF()', '=LEFT("a";1;2;3)',
+                 '=NoSheet!A1', '=SUM(NoSheet!A1:A2)']
+
+
+def reject_obligations(run: Run, rule: str, src, g):
+    from ..finite import Unknown, AbsRaise
+    from .common import library_exceptions
+    lib = library_exceptions(src)
+    ct = src.cls('CellTranslator')
+    loc = loc_of(ct.module.path, ct.node)
+    old = sys.getrecursionlimit()
+    sys.setrecursionlimit(max(old, 120000))
+    try:
+        for formula in REJECT_PROBES:
+            construct = f'rejected formula/{formula}'
+            try:
+                pl = Pipeline(src, g)
+                text, uid = pl.translate(SHEETS, formula)
+                got = 'translated'
+            except Unknown as u:
+                raise AnalysisError(rule, f'{construct}: the abstraction cannot follow the pipeline ({str(u)[:160]})')
+            except AbsRaise as e:
+                got = 'library exception' if e.exc in lib else f'raises {e.exc}'
+            run.check(got == 'library exception', rule, construct, 'not-rejected',
+                      f'the formula {formula} ends in: {got}; a formula the library cannot translate is rejected with an exception of the '
+                      f'library, wherever the problem is noticed', fact=got, loc=loc)
+    finally:
+        sys.setrecursionlimit(old)
 
 
 def _lst(x):
@@ -250,10 +283,11 @@ def formula_obligations(run: Run, rule: str, src, g, props=None, limit=None):
 # ---------------------------------------------------------------------------------------------------
 # a workbook of dependent formulas: whole-file translation, entry-point slices, overrides
 BOOK = [
-    ('S0', [[1, '=SUM(A1:A3)', '=IF(B1>5;B2;B3)', '=SUM(A1:B3)'], [2, '=B1*2'], [3, '=S1!A1+B2']]),
-    ('S1', [['=S0!A1+10', 5]]),
+    ('S0', [[1, '=SUM(A1:A3)', '=IF(B1>5;B2;B3)', '=SUM(A1:B3)', '=SUMIF(A1:A3;">1";B1:B2)'], [2, '=B1*2'], [3, '=S1!A1+B2']]),
+    ('S1', [['=S0!A1+10', 5, '=S0!A1/0', '=IFERROR("r"&C1;"fb")', '=IFERROR(C1*2;"fb2")']]),
 ]
-BOOK_VALUES = {(0, 0, 0): 1, (0, 0, 1): 2, (0, 0, 2): 3, (0, 1, 0): 6, (0, 1, 1): 12, (1, 0, 0): 11, (0, 1, 2): 23, (0, 2, 0): 12, (0, 3, 0): 47, (1, 1, 0): 5}
+BOOK_VALUES = {(0, 0, 0): 1, (0, 0, 1): 2, (0, 0, 2): 3, (0, 1, 0): 6, (0, 1, 1): 12, (1, 0, 0): 11, (0, 1, 2): 23, (0, 2, 0): 12, (0, 3, 0): 47, (1, 1, 0): 5, (0, 4, 0): 35,
+               (1, 3, 0): 'fb', (1, 4, 0): 'fb2'}
 # overrides: (batch of (sheet, column, row, value), expected values of some cells afterwards)
 BOOK_OVERRIDES = [
     ('a constant', [((0, 0, 0), 10)], {(0, 1, 0): 15, (0, 1, 1): 30, (1, 0, 0): 20, (0, 1, 2): 50, (0, 3, 0): 110}),
